@@ -1222,6 +1222,8 @@ def replay_finding(prop, k):
     exp = k.get("expect", {})
     b = exp.get("backend", "s1")
     o = expand(b, [("w", w)])["w"]
+    if exp.get("outcome") == "backends-differ":
+        return "fails" if o != expand("s2", [("w", w)])["w"] else "passes"
     if exp.get("outcome") == "panic":
         return "fails" if o[0] == "PANIC" else "passes"
     if exp.get("outcome") == "err-contains":
